@@ -53,6 +53,45 @@ Local Arguments skipn : simpl never.
 Local Arguments be_enc : simpl never.
 Local Arguments be_val : simpl never.
 
+(* ------------------------------------------------------------------ congruence modulo m, with a decision tactic
+   for equalities  X mod m = Y mod m  between expressions built from + - * opp, inner "mod m" and m itself *)
+Section Cg.
+Variable m : Z.
+Definition cg (a b : Z) := a mod m = b mod m.
+Lemma cg_refl a : cg a a. Proof. reflexivity. Qed.
+Lemma cg_sym a b : cg a b -> cg b a. Proof. unfold cg; auto. Qed.
+Lemma cg_trans a b c : cg a b -> cg b c -> cg a c. Proof. unfold cg; congruence. Qed.
+Lemma cg_add a a' b b' : cg a a' -> cg b b' -> cg (a + b) (a' + b').
+Proof. unfold cg. intros H1 H2. rewrite Zplus_mod, H1, H2, <- Zplus_mod. reflexivity. Qed.
+Lemma cg_sub a a' b b' : cg a a' -> cg b b' -> cg (a - b) (a' - b').
+Proof. unfold cg. intros H1 H2. rewrite Zminus_mod, H1, H2, <- Zminus_mod. reflexivity. Qed.
+Lemma cg_mul a a' b b' : cg a a' -> cg b b' -> cg (a * b) (a' * b').
+Proof. unfold cg. intros H1 H2. rewrite Zmult_mod, H1, H2, <- Zmult_mod. reflexivity. Qed.
+Lemma cg_opp a a' : cg a a' -> cg (- a) (- a').
+Proof. intros H. replace (- a) with (0 - a) by lia. replace (- a') with (0 - a') by lia. apply cg_sub; auto. apply cg_refl. Qed.
+Lemma cg_mod a : cg (a mod m) a. Proof. unfold cg. apply Zmod_mod. Qed.
+Lemma cg_m0 : cg m 0. Proof. unfold cg. rewrite Z_mod_same_full. rewrite Zmod_0_l. reflexivity. Qed.
+Lemma cg_eq a b : a = b -> cg a b. Proof. intros ->. apply cg_refl. Qed.
+End Cg.
+(* proves [cg m X ?Y] where ?Y is X with every "mod m" removed and every m replaced by 0 *)
+Ltac cg_strip m :=
+  lazymatch goal with
+  | |- cg m (?a mod m) _ => eapply cg_trans; [apply cg_mod | cg_strip m]
+  | |- cg m m _ => apply cg_m0
+  | |- cg m (?a + ?b) _ => eapply cg_add; [cg_strip m | cg_strip m]
+  | |- cg m (?a - ?b) _ => eapply cg_sub; [cg_strip m | cg_strip m]
+  | |- cg m (?a * ?b) _ => eapply cg_mul; [cg_strip m | cg_strip m]
+  | |- cg m (- ?a) _ => eapply cg_opp; cg_strip m
+  | |- cg m _ _ => apply cg_refl
+  end.
+(* goal: X mod m = Y mod m *)
+Ltac cg_solve m :=
+  change (cg m _ _) || idtac;
+  match goal with |- ?X mod m = ?Y mod m => change (cg m X Y) | _ => idtac end;
+  eapply cg_trans; [cg_strip m |];
+  apply cg_sym; eapply cg_trans; [cg_strip m |];
+  apply cg_eq; ring.
+
 (* ------------------------------------------------------------------ object facts *)
 Lemma secnonce_load_zeros P : secnonce_load P (zeros 132) = None.
 Proof. reflexivity. Qed.
@@ -628,23 +667,31 @@ Qed.
 Definition cbytes_inj_on (pts : list point) : Prop :=
   forall A B, In A pts -> In B pts -> Bip327.cbytes A = Bip327.cbytes B -> A = B.
 
-Lemma second_key_spec F rest : cbytes_inj_on (F :: rest) ->
+Local Arguments Bip327.cbytes : simpl never.
+Lemma second_key_from_spec F all r : cbytes_inj_on all -> In F all -> (forall Q, In Q r -> In Q all /\ Q <> None) ->
+  Bip327.get_second_key_from (Bip327.cbytes F) (map Bip327.cbytes r) = Bip327.cbytes_ext (second_pt F r) /\
+  (second_pt F r <> None -> second_pt F r <> F).
+Proof.
+  intros Inj HF. induction r as [|Q r IH]; intros Sub.
+  - split; [reflexivity|]. cbn [second_pt]. congruence.
+  - cbn [map Bip327.get_second_key_from second_pt].
+    destruct (point_eqb F Q) eqn:E.
+    + apply point_eqb_true in E. subst Q. rewrite (proj2 (bytes_eqb_eq _ _) eq_refl). cbn [negb].
+      apply IH. intros; apply Sub; right; auto.
+    + rewrite bytes_eqb_neq.
+      * cbn [negb]. split.
+        { destruct Q as [[x y]|]; [reflexivity|]. exfalso. apply (proj2 (Sub None (or_introl eq_refl))). reflexivity. }
+        { intros _ H. subst Q. rewrite point_eqb_refl in E. discriminate. }
+      * intros H. apply Inj in H; [|apply Sub; left; auto|auto]. subst Q. rewrite point_eqb_refl in E. discriminate.
+Qed.
+
+Lemma second_key_spec F rest : cbytes_inj_on (F :: rest) -> (forall Q, In Q rest -> Q <> None) ->
   Bip327.get_second_key (map Bip327.cbytes (F :: rest)) = Bip327.cbytes_ext (second_pt F rest) /\
   (second_pt F rest <> None -> second_pt F rest <> F).
 Proof.
-  intros Inj. simpl. rewrite (proj2 (bytes_eqb_eq _ _) eq_refl). simpl.
-  assert (Sub : forall Q, In Q rest -> In Q (F :: rest)) by (intros; right; auto).
-  revert Sub. generalize rest at 1 3 4 5 as r. induction r as [|Q r IH]; intros Sub; simpl.
-  - split; [reflexivity|congruence].
-  - destruct (point_eqb F Q) eqn:E.
-    + apply point_eqb_true in E. subst Q. rewrite (proj2 (bytes_eqb_eq _ _) eq_refl). simpl. apply IH. intros; apply Sub; right; auto.
-    + rewrite bytes_eqb_neq.
-      * simpl. split.
-        { destruct Q as [[x y]|]; [reflexivity|]. exfalso.
-          (* Q = None cannot be distinguished... but cbytes None is a fixed string: handled by injectivity below *)
-          assert (F = None) by (destruct F as [[a b]|]; [simpl in E; discriminate|reflexivity]). subst F. discriminate. }
-        { intros _ H. subst Q. rewrite point_eqb_refl in E. discriminate. }
-      * intros H. apply Inj in H; [|apply Sub; left; auto|left; auto]. subst Q. rewrite point_eqb_refl in E. discriminate.
+  intros Inj NN. cbn [map Bip327.get_second_key Bip327.get_second_key_from].
+  rewrite (proj2 (bytes_eqb_eq _ _) eq_refl). cbn [negb].
+  apply (second_key_from_spec F (F :: rest) rest Inj); [left; auto|intros; split; [right; auto|auto]].
 Qed.
 
 Local Transparent keyaggcoef.
@@ -685,7 +732,8 @@ Proof.
   rewrite find_second_pts by auto.
   change (pk_obj F :: map pk_obj rest) with (map pk_obj (F :: rest)). rewrite load_all_pts by auto.
   unfold keyagg_point, Bip327.key_agg, psum.
-  destruct (second_key_spec F rest Inj) as [SK _].
+  assert (NN : forall Q, In Q rest -> Q <> None) by (intros Q HQ; apply valid_not_None; eapply (proj1 (Forall_forall _ _) VR); eauto).
+  destruct (second_key_spec F rest Inj NN) as [SK _].
   assert (M : map (fun Q => Curve.pmul P (keyaggcoef P (pks_hash_of (F :: rest)) Q (second_pt F rest)) Q) (F :: rest) =
               map (fun Pi => Curve.pmul P (Bip327.key_agg_coeff_internal P (map Bip327.cbytes (F :: rest)) (Bip327.cbytes Pi)
                                               (Bip327.get_second_key (map Bip327.cbytes (F :: rest)))) Pi) (F :: rest)).
@@ -722,9 +770,10 @@ Proof.
   - rewrite m1_mod by lia. unfold Bip327.gmul.
     replace (n - 1 =? 1) with false by (symmetry; apply Z.eqb_neq; lia).
     destruct (Curve.padd P (Curve.pneg P (c_pk ci)) (Curve.pmul P (be_val t32) (Curve.G P))) eqn:E; auto.
-    simpl. split; [|auto]. unfold cache_rel. simpl. split; auto. split; [|split].
+    split; [|auto]. unfold cache_rel.
+    cbn [c_pk c_parity c_tweak c_second c_hash Bip327.ctx_Q Bip327.ctx_gacc Bip327.ctx_tacc]. split; auto. split; [|split].
     + destruct RG as [[-> ->] | [-> ->]]; [right|left]; split; auto.
-      * rewrite Z.mul_1_r. apply Z.mod_small. lia.
+      * rewrite ?Z.mul_1_r. apply Z.mod_small. lia.
       * replace ((n - 1) * (n - 1)) with (1 + (n - 2) * n) by ring. rewrite Z.mod_add by lia. apply Z.mod_small. lia.
     + unfold sc_add, sc_neg, madd, mneg. fold n. rewrite RT. rewrite Zplus_mod_idemp_l.
       replace (be_val t32 + (n - 1) * Bip327.ctx_tacc ctx) with (- Bip327.ctx_tacc ctx + be_val t32 + Bip327.ctx_tacc ctx * n) by ring.
@@ -732,10 +781,10 @@ Proof.
     + apply Z.mod_pos_bound. lia.
   - unfold Bip327.gmul. simpl (1 =? 1).
     destruct (Curve.padd P (c_pk ci) (Curve.pmul P (be_val t32) (Curve.G P))) eqn:E; auto.
-    simpl. split; [|auto]. unfold cache_rel. simpl. split; auto. split; [|split].
-    + destruct RG as [[-> ->] | [-> ->]]; [left|right]; split; auto.
-      * apply Z.mod_small. lia.
-      * rewrite Z.mul_1_l. apply Z.mod_small. lia.
+    split; [|auto]. unfold cache_rel.
+    cbn [c_pk c_parity c_tweak c_second c_hash Bip327.ctx_Q Bip327.ctx_gacc Bip327.ctx_tacc]. split; auto. split; [|split].
+    + destruct RG as [[-> ->] | [-> ->]]; [left|right]; split; auto;
+        rewrite ?Z.mul_1_l, ?Z.mul_1_r; apply Z.mod_small; lia.
     + unfold sc_add, madd. fold n. rewrite RT. f_equal. ring.
     + apply Z.mod_pos_bound. lia.
 Qed.
@@ -761,7 +810,7 @@ Proof.
   destruct S as [R1 [S2 S3]].
   specialize (IH ci1 ctx1 Hn H2 R1).
   destruct (tweak_steps ci1 r), (Bip327.apply_tweaks P ctx1 r); auto.
-  destruct IH as [A [B C]]. repeat split; auto; congruence.
+  destruct IH as [A [B C]]. split; [exact A|split; congruence].
 Qed.
 
 (* the API function is load -> tweak_step -> save *)
@@ -816,7 +865,7 @@ Proof.
   intros s k w1 kp1 c1 se1 ops w2 kp2 c2 se2 Hk Hops. cbv zeta.
   pose proof (step_sign_wipes P s k w1 kp1 c1 se1 Hk) as Z1.
   pose proof (final_keeps_zero P ops _ k Hops Z1) as Z2.
-  destruct (step_sign_unloadable P _ k _ w2 kp2 c2 se2 Z2 (secnonce_load_zeros P)) as [A [B [C D]]].
+  destruct (step_sign_unloadable P _ k (zeros 132) w2 kp2 c2 se2 Z2 (secnonce_load_zeros P)) as [A [B [C D]]].
   auto.
 Qed.
 
@@ -856,7 +905,7 @@ Lemma signature_is_logged_stmt : forall s k sec want_sig keypair cache session,
   (o_ret (snd r) = 1 ->
      exists v, siglog (fst r) = (slot_id s k, v) :: siglog s /\ o_sig (snd r) = Some (psig_save v)) /\
   (o_ret (snd r) <> 1 -> siglog (fst r) = siglog s /\ (o_sig (snd r) = None \/ o_sig (snd r) = Some (zeros 36))).
-Proof. intros. apply step_sign_logged. auto. Qed.
+Proof. intros s k sec w kp c se H. apply (step_sign_logged P s k sec w kp c se H). Qed.
 
 (* only partial_sign steps extend the log; generation events get fresh identifiers *)
 Lemma only_sign_logs_stmt : forall s o,
@@ -894,3 +943,250 @@ Lemma nonce_gen_counter_contract_stmt : forall before want_pubnonce cnt keypair 
                     ng_sec o = secnonce_save k1 k2 pk /\ skipn 68 (ng_sec o) = pk_obj pk).
 Proof. intros. apply nonce_gen_counter_sec_contract. Qed.
 End C13_statements.
+
+(* ================================================================== C12, continued: signing and aggregation *)
+Section C12_sign.
+Variable P : Params.
+
+(* partial signing computes BIP-327 Sign:  s = k1 + b k2 + e a d  with the BIP's sign conventions
+   (k negated for an odd final nonce; d' multiplied by g . gacc) *)
+Lemma partial_sign_eq_spec_lemma sec k1 k2 pk kp d c ci se si ctx R :
+  secnonce_load P sec = Some (k1, k2, pk) -> keypair_load P kp = Some (d, pk) ->
+  cache_load P c = Some ci -> session_load P se = Some si ->
+  cache_rel P ci ctx -> (s_parity si =? 0) = Bip327.has_even_y R ->
+  partial_sign_core P sec true (Some kp) (Some c) (Some se) =
+  (true, 0, Some (Bip327.sign_s P ctx R (s_b si) (s_e si) (keyaggcoef P (c_hash ci) pk (c_second ci)) k1 k2 d)).
+Proof.
+  intros L1 L2 L3 L4 [RQ [RG [RT RB]]] RP.
+  unfold partial_sign_core. rewrite L1. cbn [negb]. rewrite L2, point_eqb_refl. cbn [negb]. rewrite L3, L4.
+  f_equal. f_equal.
+  unfold partial_sign_scalar, Bip327.sign_s, sc_add, sc_mul, sc_neg, madd, mmul, mneg, Bip327.has_even_y in *.
+  rewrite <- RQ. rewrite RP.
+  set (mu := keyaggcoef P (c_hash ci) pk (c_second ci)).
+  destruct RG as [[-> ->] | [-> ->]]; destruct (Z.odd (py (c_pk ci))); destruct (Z.odd (py R));
+    cbn [negb xorb Z.eqb Pos.eqb]; cg_solve (cn P).
+Qed.
+
+(* aggregation: s = sum s_i + e . g . tacc, sig = xbytes(R) || s *)
+Lemma fold_sc_add_cg ss : forall acc, cg (cn P) (fold_left (sc_add P) ss acc) (acc + fold_left Z.add ss 0).
+Proof.
+  induction ss as [|x r IH]; intros acc; cbn [fold_left].
+  - apply cg_eq. lia.
+  - eapply cg_trans; [apply IH|].
+    assert (E : forall a, fold_left Z.add r a = a + fold_left Z.add r 0).
+    { clear. induction r as [|y r IH]; intros a; cbn [fold_left]; [lia|]. rewrite (IH (a + y)), (IH (0 + y)). lia. }
+    rewrite (E (0 + x)). unfold sc_add, madd.
+    eapply cg_trans; [eapply cg_add; [apply cg_mod|apply cg_refl]|]. apply cg_eq. lia.
+Qed.
+
+Lemma psig_load_save s : 0 <= s < cn P -> cn P <= 2 ^ 256 -> psig_load P (psig_save s) = Some s.
+Proof.
+  intros Hs Hn. unfold psig_load, psig_save, sc_to_b32.
+  rewrite (firstn_exact magic_psig (be_enc 32 s) 4 eq_refl). cbn [bytes_eqb magic_psig Z.eqb Pos.eqb andb].
+  rewrite (skipn_exact magic_psig (be_enc 32 s) 4 eq_refl). unfold sc_b. rewrite sc_of_b32_enc by auto. reflexivity.
+Qed.
+
+Lemma sum_psigs_objs ss : forall acc, Forall (fun s => 0 <= s < cn P) ss -> cn P <= 2 ^ 256 ->
+  sum_psigs P (map psig_save ss) acc = Some (fold_left (sc_add P) ss acc).
+Proof.
+  induction ss as [|x r IH]; intros acc H Hn; cbn [map sum_psigs fold_left]; auto.
+  inversion H; subst. rewrite psig_load_save by auto. apply IH; auto.
+Qed.
+
+Lemma session_s_part_cg ci ctx e : cache_rel P ci ctx ->
+  cg (cn P) (session_s_part P ci e)
+     (e * (if Bip327.has_even_y (Bip327.ctx_Q ctx) then 1 else cn P - 1) * Bip327.ctx_tacc ctx).
+Proof.
+  intros [RQ [_ [RT RB]]]. unfold session_s_part, Bip327.has_even_y. rewrite <- RQ, RT.
+  destruct (Bip327.ctx_tacc ctx =? 0) eqn:E.
+  - apply Z.eqb_eq in E. rewrite E. apply cg_eq. ring.
+  - unfold sc_mul, sc_neg, mmul, mneg. destruct (Z.odd (py (c_pk ci))); cbn [negb]; unfold cg; cg_solve (cn P).
+Qed.
+
+Theorem partial_sig_agg_eq_spec_lemma se si ci ctx R ss :
+  session_load P se = Some si -> cache_rel P ci ctx ->
+  s_part si = session_s_part P ci (s_e si) -> s_fin si = Bip327.xbytes R ->
+  ss <> [] -> Forall (fun s => 0 <= s < cn P) ss -> 0 < cn P <= 2 ^ 256 ->
+  musig_partial_sig_agg P (Some se) (Some (map psig_save ss)) =
+  [AInt 1; ABytes (Bip327.partial_sig_agg P ctx R (s_e si) ss)].
+Proof.
+  intros L R1 SP SF NE V Hn. unfold musig_partial_sig_agg.
+  destruct ss as [|s0 r]; [congruence|]. cbn [map]. rewrite L.
+  change (psig_save s0 :: map psig_save r) with (map psig_save (s0 :: r)).
+  rewrite sum_psigs_objs by (auto; lia).
+  unfold Bip327.partial_sig_agg, Bip327.bytes_k, sc_to_b32. rewrite SF.
+  pose proof (fold_sc_add_cg (s0 :: r) (s_part si)) as F.
+  assert (B : 0 <= fold_left (sc_add P) (s0 :: r) (s_part si) < cn P).
+  { cbn [fold_left]. clear -Hn. revert s0. generalize (s_part si). induction r as [|y r IH]; intros a s0; cbn [fold_left].
+    - unfold sc_add, madd. apply Z.mod_pos_bound. lia.
+    - apply IH. }
+  assert (E : fold_left (sc_add P) (s0 :: r) (s_part si) =
+              (fold_left Z.add (s0 :: r) 0 + s_e si * (if Bip327.has_even_y (Bip327.ctx_Q ctx) then 1 else cn P - 1) * Bip327.ctx_tacc ctx) mod cn P).
+  { rewrite <- (Z.mod_small _ _ B).
+    eapply cg_trans; [exact F|]. rewrite SP.
+    eapply cg_trans; [eapply cg_add; [apply (session_s_part_cg ci ctx (s_e si) R1)|apply cg_refl]|].
+    apply cg_eq. ring. }
+  rewrite E. reflexivity.
+Qed.
+
+(* nonce aggregation and session creation equal BIP-327 NonceAgg / GetSessionValues *)
+Lemma ser_ext_cbytes R : ge_serialize_ext R = Bip327.cbytes_ext R.
+Proof.
+  destruct R as [[x y]|]; [|reflexivity]. unfold ge_serialize_ext. cbn [Bip327.cbytes_ext].
+  apply ser33_cbytes. discriminate.
+Qed.
+
+Lemma nonce_process_internal_spec R1 R2 Q m :
+  nonce_process_internal P R1 R2 (Bip327.xbytes Q) m =
+  (b2z (Z.odd (py (Bip327.session_R P R1 R2 Q m))), Bip327.xbytes (Bip327.session_R P R1 R2 Q m), Bip327.session_b P R1 R2 Q m).
+Proof.
+  unfold nonce_process_internal, Bip327.session_R, Bip327.session_b, Bip327.aggnonce_bytes, sc_b, sc_of_b32, Bip327.int_of.
+  cbn [fst snd]. rewrite !ser_ext_cbytes. rewrite <- !app_assoc. reflexivity.
+Qed.
+
+Lemma nonce_process_eq_spec_lemma an m c ci R1 R2 :
+  cache_load P c = Some ci -> aggnonce_load an = Some (R1, R2) ->
+  let Q := c_pk ci in
+  let R := Bip327.session_R P R1 R2 Q m in
+  musig_nonce_process P (Some an) (Some m) (Some c) None =
+  [AInt 1; ABytes (session_save (mkSession (b2z (Z.odd (py R))) (Bip327.xbytes R) (Bip327.session_b P R1 R2 Q m)
+                                           (Bip327.session_e P R1 R2 Q m)
+                                           (session_s_part P ci (Bip327.session_e P R1 R2 Q m))))].
+Proof.
+  intros L1 L2. cbv zeta. unfold musig_nonce_process. rewrite L1, L2.
+  change (fe_to_b32 (px (c_pk ci))) with (Bip327.xbytes (c_pk ci)).
+  rewrite nonce_process_internal_spec. reflexivity.
+Qed.
+
+Lemma sum_pubnonces_spec pubs : forall acc, Forall (fun R => valid_pt (fst R) /\ valid_pt (snd R)) pubs ->
+  sum_pubnonces P (map (fun R => pubnonce_save (fst R) (snd R)) pubs) acc =
+  Some (fold_left (Curve.padd P) (map fst pubs) (fst acc), fold_left (Curve.padd P) (map snd pubs) (snd acc)).
+Proof.
+  induction pubs as [|[A B] r IH]; intros [a b] V; cbn [map sum_pubnonces fold_left fst snd]; auto.
+  inversion V as [|? ? [VA VB] VR]; subst. cbn [fst snd] in *.
+  assert (L : pubnonce_load (pubnonce_save A B) = Some (A, B)).
+  { unfold pubnonce_load, pubnonce_save.
+    rewrite (firstn_exact magic_pubnonce (pk_obj A ++ pk_obj B) 4 eq_refl). cbn [bytes_eqb magic_pubnonce Z.eqb Pos.eqb andb].
+    destruct A as [[x1 y1]|]; [|cbn in VA; tauto]. destruct B as [[x2 y2]|]; [|cbn in VB; tauto].
+    cbn [valid_pt] in VA, VB. unfold slice, pk_obj, fe_to_b32, pt_of_c64.
+    rewrite (skipn_exact magic_pubnonce _ 4 eq_refl).
+    assert (L64 : length (be_enc 32 x1 ++ be_enc 32 y1) = 64%nat) by (rewrite app_length, !be_enc_length; reflexivity).
+    rewrite (firstn_exact (be_enc 32 x1 ++ be_enc 32 y1) (be_enc 32 x2 ++ be_enc 32 y2) 64 L64).
+    replace (magic_pubnonce ++ (be_enc 32 x1 ++ be_enc 32 y1) ++ be_enc 32 x2 ++ be_enc 32 y2)
+      with ((magic_pubnonce ++ be_enc 32 x1 ++ be_enc 32 y1) ++ be_enc 32 x2 ++ be_enc 32 y2) by (rewrite <- !app_assoc; reflexivity).
+    rewrite (skipn_exact (magic_pubnonce ++ be_enc 32 x1 ++ be_enc 32 y1) _ 68) by (rewrite !app_length, !be_enc_length; reflexivity).
+    assert (L64' : length (be_enc 32 x2 ++ be_enc 32 y2) = 64%nat) by (rewrite app_length, !be_enc_length; reflexivity).
+    assert (FA : firstn 64 (be_enc 32 x2 ++ be_enc 32 y2) = be_enc 32 x2 ++ be_enc 32 y2) by (rewrite <- L64'; apply firstn_all).
+    rewrite !FA.
+    rewrite !(firstn_exact _ _ 32 (be_enc_length 32 _)), !(skipn_exact _ _ 32 (be_enc_length 32 _)).
+    rewrite !be_val_enc by (rewrite pow256_32; lia). reflexivity. }
+  rewrite L. apply IH. auto.
+Qed.
+
+Theorem nonce_agg_eq_spec_lemma p0 pubs :
+  Forall (fun R => valid_pt (fst R) /\ valid_pt (snd R)) (p0 :: pubs) ->
+  musig_nonce_agg P (Some (map (fun R => pubnonce_save (fst R) (snd R)) (p0 :: pubs))) =
+  [AInt 1; ABytes (aggnonce_save (fst (Bip327.nonce_agg P (p0 :: pubs))) (snd (Bip327.nonce_agg P (p0 :: pubs))))].
+Proof.
+  intros V. unfold musig_nonce_agg.
+  rewrite (sum_pubnonces_spec (p0 :: pubs) (None, None) V). reflexivity.
+Qed.
+End C12_sign.
+
+(* ================================================================== cbytes is injective on curve points [MathFacts] *)
+Require Import Proofs.MathFacts.
+From Coq Require Import Znumtheory.
+Section CbytesInj.
+Variable P : Params.
+Hypothesis MF : MathFacts P.
+Hypothesis Hp : cp P < 2 ^ 256.
+
+Lemma cons_inj_Z (a b : Z) l l' : a :: l = b :: l' -> a = b /\ l = l'.
+Proof. intros H. injection H; auto. Qed.
+
+Lemma cbytes_inj_curve A B : oc P A -> oc P B -> A <> None -> B <> None -> Bip327.cbytes A = Bip327.cbytes B -> A = B.
+Proof.
+  destruct A as [[x y]|]; [|congruence]. destruct B as [[x' y']|]; [|congruence].
+  unfold oc, on_curve. intros HA HB _ _ H.
+  apply andb_true_iff in HA. destruct HA as [HA Ec]. apply andb_true_iff in HA. destruct HA as [HA Hy2].
+  apply andb_true_iff in HA. destruct HA as [HA Hy1]. apply andb_true_iff in HA. destruct HA as [Hx1 Hx2].
+  apply andb_true_iff in HB. destruct HB as [HB Ec']. apply andb_true_iff in HB. destruct HB as [HB Hy2'].
+  apply andb_true_iff in HB. destruct HB as [HB Hy1']. apply andb_true_iff in HB. destruct HB as [Hx1' Hx2'].
+  apply Z.leb_le in Hx1, Hy1, Hx1', Hy1'. apply Z.ltb_lt in Hx2, Hy2, Hx2', Hy2'. apply Z.eqb_eq in Ec, Ec'.
+  unfold Bip327.cbytes, Bip327.has_even_y, Bip327.xbytes, Bip327.bytes_k in H. cbn [px py] in H.
+  apply cons_inj_Z in H. destruct H as [Hpar Hx].
+  apply (f_equal be_val) in Hx. rewrite !be_val_enc in Hx by (rewrite pow256_32; lia). subst x'.
+  assert (Ho : Z.odd y = Z.odd y') by (destruct (Z.odd y), (Z.odd y'); cbn in Hpar; congruence).
+  assert (Hsq : (y * y) mod cp P = (y' * y') mod cp P) by congruence.
+  assert (Hd : (cp P | (y - y') * (y + y'))).
+  { apply Z.mod_divide; [lia|]. replace ((y - y') * (y + y')) with (y * y - y' * y') by ring.
+    rewrite Zminus_mod, Hsq, Z.sub_diag. apply Zmod_0_l. }
+  apply (prime_mult _ (mf_p_prime P MF)) in Hd.
+  assert (y = y'); [|congruence].
+  destruct Hd as [[k Hk] | [k Hk]].
+  - assert (k = 0) by nia. lia.
+  - assert (k = 0 \/ k = 1) as [-> | ->] by nia; [lia|].
+    exfalso. pose proof (mf_p_3mod4 P MF) as H4.
+    assert (Z.odd (cp P) = true).
+    { rewrite Zodd_mod. apply Zeq_is_eq_bool. symmetry. apply Z.mod_unique with (q := 2 * (cp P / 4) + 1); [lia|].
+      pose proof (Z.div_mod (cp P) 4 ltac:(lia)). lia. }
+    replace (cp P) with (y + y') in H by lia. rewrite Z.odd_add in H. rewrite Ho in H. destruct (Z.odd y'); discriminate.
+Qed.
+
+Lemma cbytes_inj_on_curve pts : Forall (fun Q => oc P Q /\ Q <> None) pts -> cbytes_inj_on pts.
+Proof.
+  intros V A B HA HB H. rewrite Forall_forall in V. destruct (V A HA), (V B HB). apply cbytes_inj_curve; auto.
+Qed.
+End CbytesInj.
+
+(* ================================================================== completeness of partial signatures [MathFacts] *)
+Require Import Proofs.GroupLemmas.
+Section Honest.
+Variable P : Params.
+Hypothesis MF : MathFacts P.
+Notation G := (Curve.G P).
+
+Lemma mod_bound x : 0 <= x mod cn P < cn P.
+Proof. apply Z.mod_pos_bound. apply (n_pos P MF). Qed.
+
+(* every point occurring in the verification of an honest partial signature is a multiple of G, so the
+   verification equation reduces to a congruence between scalars, decided by cg_solve *)
+Lemma honest_partial_sig_verifies_lemma ci si d k1 k2 :
+  0 <= d < cn P -> 0 <= k1 < cn P -> 0 <= k2 < cn P ->
+  0 <= s_b si < cn P -> 0 <= s_e si < cn P ->
+  let pk := Curve.pmul P d G in
+  let s := partial_sign_scalar P ci si k1 k2 pk d in
+  partial_sig_verify_core P ci si s (Curve.pmul P k1 G) (Curve.pmul P k2 G) pk = true.
+Proof.
+  intros Hd Hk1 Hk2 Hb He pk s.
+  pose proof (n_pos P MF) as Hn.
+  unfold partial_sig_verify_core. fold pk.
+  set (mu := keyaggcoef P (c_hash ci) pk (c_second ci)).
+  set (fl := xorb (Z.odd (py (c_pk ci))) (c_parity ci =? 1)).
+  set (e := if fl then sc_neg P (sc_mul P (s_e si) mu) else sc_mul P (s_e si) mu).
+  assert (He' : 0 <= e < cn P) by (unfold e, sc_neg, sc_mul, mneg, mmul; destruct fl; apply mod_bound).
+  assert (Hs : 0 <= s < cn P) by (unfold s, partial_sign_scalar, sc_add, madd; apply mod_bound).
+  (* R1 + b R2 = (k1 + b k2) G *)
+  assert (ERe : Curve.padd P (Curve.pmul P k1 G) (Curve.pmul P (s_b si) (Curve.pmul P k2 G)) =
+                Curve.pmul P (madd (cn P) k1 (mmul (cn P) (s_b si) k2)) G).
+  { rewrite <- (pmul_mmul P MF) by lia. rewrite <- (pmul_madd P MF); [reflexivity|lia|]. apply mod_bound. }
+  rewrite ERe.
+  set (re := madd (cn P) k1 (mmul (cn P) (s_b si) k2)).
+  assert (Hre : 0 <= re < cn P) by (apply mod_bound).
+  set (re' := if s_parity si =? 0 then re else mneg (cn P) re).
+  assert (ERe' : (if s_parity si =? 0 then Curve.pmul P re G else Curve.pneg P (Curve.pmul P re G)) = Curve.pmul P re' G).
+  { unfold re'. destruct (s_parity si =? 0); [reflexivity|]. rewrite (pmul_mneg P MF) by auto. reflexivity. }
+  rewrite ERe'.
+  assert (Hre' : 0 <= re' < cn P) by (unfold re'; destruct (s_parity si =? 0); [auto|apply mod_bound]).
+  unfold pk. rewrite <- (pmul_mmul P MF) by lia.
+  unfold sc_neg at 1.
+  rewrite <- (pmul_madd P MF); [|apply mod_bound|apply mod_bound].
+  rewrite <- (pmul_madd P MF); [|apply mod_bound|lia].
+  (* the scalar is 0 mod n *)
+  match goal with |- is_inf (Curve.pmul P ?t G) = true => assert (Z0 : t = 0) end.
+  { unfold madd at 1. rewrite <- (Zmod_0_l (cn P)).
+    unfold re', re, e, s, partial_sign_scalar, sc_add, sc_mul, sc_neg, madd, mmul, mneg. fold pk. fold mu. fold fl.
+    destruct fl; destruct (s_parity si =? 0); cbn [negb]; cg_solve (cn P). }
+  rewrite Z0. reflexivity.
+Qed.
+End Honest.
